@@ -258,11 +258,11 @@ pub fn property() -> Property {
         assumptions: vec!["a 2^-128 accident (tampered contract recovering the same key) is ignored"],
         health: vec![("sig.contract_roundtrip_tamper", "content-tampered", 400)],
         subs: vec![
-            prop_sub("sig.contract_roundtrip_tamper", 20_000, 600_000, |_| sig_case(), oracle_roundtrip),
+            prop_sub("sig.contract_roundtrip_tamper", 80_000, 640_000, |_| sig_case(), oracle_roundtrip),
             prop_sub(
                 "sig.bind_exhaustive",
-                48,
-                1_000,
+                192,
+                1_536,
                 |_| {
                     (any::<[u8; 32]>(), values::pred_sized(40usize..90, 0usize..30), gen::bytes32()).prop_map(|(sk, p, salt)| BindCase {
                         sk,
@@ -274,12 +274,12 @@ pub fn property() -> Property {
             .shards(16),
             prop_sub(
                 "sig.malformed",
-                400,
-                12_000,
+                1_600,
+                12_800,
                 |_| (any::<[u8; 32]>(), any::<[u8; 32]>(), any::<u8>(), any::<u8>()).prop_map(|(sk, digest, pattern, fill)| MalformedCase { sk, digest, pattern, fill }),
                 oracle_malformed,
             ),
-            prop_sub("sig.encodings_vm", 8_000, 300_000, |_| (any::<[u8; 32]>(), any::<[u8; 32]>()).prop_map(|(sk, digest)| EncCase { sk, digest }), oracle_encodings),
+            prop_sub("sig.encodings_vm", 32_000, 300_000, |_| (any::<[u8; 32]>(), any::<[u8; 32]>()).prop_map(|(sk, digest)| EncCase { sk, digest }), oracle_encodings),
         ],
     }
 }
